@@ -234,7 +234,66 @@ def two_axis_section(ctx):
                                                                                           want[k] if k is not None else None))
 
 
+def info_section(ctx):
+    """font INFO of generated instances: at a master's location the master's numeric info (vertical metrics, italic angle,
+    underline, OS/2 classes), half way between two masters the blend; with geometry rounding on and off; on a weight axis and on
+    a slant axis (where an italic angle the masters do NOT set is taken from the axis value -- and one they DO set, 0 included,
+    is theirs)"""
+    from ufo2ft.instantiator import Instantiator
+    from fontTools.designspaceLib import InstanceDescriptor
+    rng = ctx.subrng("instance-info")
+    tri = [[(Fr(0), Fr(0), "line"), (Fr(100), Fr(0), "line"), (Fr(50), Fr(100), "line")]]
+    ATTRS = ["ascender", "descender", "xHeight", "capHeight", "italicAngle", "postscriptUnderlinePosition", "openTypeOS2TypoAscender", "openTypeOS2WeightClass"]
+    for i in range(ctx.budget(12, 36)):
+        lib = ["ufoLib2", "defcon"][i % 2]
+        axis = [("Weight", "wght", 100, 100, 900), ("Slant", "slnt", -12, 0, 0)][(i // 2) % 2]
+        angles = [(0, 0), (0, -12), (None, None)][(i // 4) % 3]          # the masters' italic angles (None: not set)
+        rnd = (i // 12) % 2 == 1
+        locs = [axis[3], axis[4] if axis[1] == "wght" else axis[2]]
+        def master(k):
+            info = {"familyName": "Fam", "styleName": "M%d" % k, "unitsPerEm": 1000, "ascender": 800 + 20 * k, "descender": -200 - 40 * k,
+                    "xHeight": 500 + 10 * k, "capHeight": 700, "postscriptUnderlinePosition": -100 + 30 * k, "openTypeOS2TypoAscender": 900 - 100 * k}
+            if angles[k] is not None:
+                info["italicAngle"] = angles[k]
+            if i % 3 == 0:
+                info["openTypeOS2WeightClass"] = 300 + 400 * k
+            return {"glyphs": [{"name": "a", "unicodes": [0x61], "width": Fr(500 + 100 * k), "contours": tri, "components": [], "anchors": []}],
+                    "glyphOrder": ["a"], "kerning": {}, "groups": {}, "lib": {}, "features": "", "info": info, "no_info_defaults": True}
+        masters = [master(0), master(1)]
+        case = {"lib": lib, "axis": axis[1], "masters_info": [jsonable(m["info"]) for m in masters], "round_geometry": rnd}
+        ctx.count(); ctx.klass("instance info: %s axis, italic angles %r" % (axis[1], angles)); ctx.nontriv(("iinfo", i, ctx.scale))
+        try:
+            ds, fonts = dsgen.make_designspace(rng, masters, lib, axes=[axis], locations=[{axis[0]: l} for l in locs], instances=False)
+            inst = Instantiator.from_designspace(ds, round_geometry=rnd)
+            got = {}
+            for t in (0, 1, Fr(1, 2)):
+                d = InstanceDescriptor()
+                d.familyName, d.styleName, d.location = "Fam", "I", {axis[0]: float(locs[0] + t * (locs[1] - locs[0]))}
+                f = inst.generate_instance(d)
+                got[t] = {a: getattr(f.info, a, None) for a in ATTRS}
+        except Exception as e:
+            ctx.spec_failure(case, "instance generation raised %s: %s\n%s" % (type(e).__name__, e, traceback.format_exc()[-800:]))
+            continue
+        for t in (0, 1, Fr(1, 2)):
+            for a in ATTRS:
+                v0, v1 = masters[0]["info"].get(a), masters[1]["info"].get(a)
+                if v0 is None and v1 is None:
+                    if a == "italicAngle" and axis[1] == "slnt":
+                        want = float(locs[0] + t * (locs[1] - locs[0]))        # taken from the slant axis: the values map 1:1
+                    elif a == "openTypeOS2WeightClass" and axis[1] == "wght":
+                        continue                                                 # (derived from the axis value: C16's business)
+                    else:
+                        want = None
+                else:
+                    want = float(v0 + t * (v1 - v0))
+                g = got[t][a]
+                if (want is None) != (g is None) or (want is not None and abs(float(g) - want) > 1e-6):
+                    ctx.spec_failure(dict(case, instance_at=str(t), attribute=a, instance_value=g),
+                                     "instance at t=%s: info.%s is %r; the masters have %r and %r -> %r" % (t, a, g, v0, v1, want))
+
+
 def explore(ctx):
+    info_section(ctx)
     two_axis_section(ctx)
     glyph_masters_section(ctx)
     varmodel_section(ctx, "c19")
